@@ -159,9 +159,10 @@ def hseqStep (c : Codec K) (floor : K → K) (s : ObjHeap K) : PyVal → Option 
   | .list [.str "upd", .int r, v, cnt] => do
     let v ← c.dec v
     let cnt ← c.dec cnt
-    match ← s.upd r.toNat v cnt with
-    | .error e => pure (s, errOut e)
-    | .ok s' => pure (s', okOut)
+    -- a call the source refuses leaves on the object whatever the source did before the `raise` (`ObjHeap.updCaught`)
+    match ← s.updCaught r.toNat v cnt with
+    | (s', some e) => pure (s', errOut e)
+    | (s', none) => pure (s', okOut)
   | .list [.str "add", .int dst, .int a, .int b] => do
     match ← s.add Gen.DistogramObj.addTarget dst.toNat a.toNat b.toNat with
     | .error e => pure (s, errOut e)
